@@ -8,6 +8,7 @@ import PtaProofs.Lemmas.RuleAlgebra
 import PtaProofs.Lemmas.AnythingDedup
 import PtaProofs.Lemmas.RuleErrors
 import PtaProofs.Lemmas.AliasBatch
+import PtaProofs.Lemmas.ScanMono
 namespace Pta.C12
 open Pta
 
@@ -139,25 +140,26 @@ theorem alias_anything_dedup_of_nodes (mt : Str → Str → Bool) (g : PGraph St
       = (assertApplies mt (mkRule false false true dir true (dedupSubjects S) (dedupSubjects S)) g).2 :=
   Pta.anything_alias_dedup_of_nodes mt g S dir hn
 
-/-- monotonicity: a passing `should` rule (with or without `except`) stays passing -/
-theorem monotone_should (mt : Str → Str → Bool) (g : PGraph Str) (u v : Str) (A B : List Filter) (dir exc : Bool)
-    (hnew : g.hasEdge u v = false) :
+/-- monotonicity: a passing `should` rule (with or without `except`) stays passing. ANY pair `u v`: the former
+    hypothesis `g.hasEdge u v = false` ("the pair carries no edge yet") was not used by the proof and has been dropped
+    (`addImportEdge g u v` appends the import edge `u → v` to the edge list and adds no module) -/
+theorem monotone_should (mt : Str → Str → Bool) (g : PGraph Str) (u v : Str) (A B : List Filter) (dir exc : Bool) :
     verdictOf mt g (mkRule true false false dir exc A B) = .pass →
     verdictOf mt (addImportEdge g u v) (mkRule true false false dir exc A B) = .pass :=
-  Pta.monotone_should_lemma mt g u v A B dir exc hnew
+  Pta.ScanMono.should_add_one mt g u v A B dir exc
 
 /-- monotonicity: a failing `should not` rule (with or without `except`) stays failing -/
-theorem monotone_should_not (mt : Str → Str → Bool) (g : PGraph Str) (u v : Str) (A B : List Filter) (dir exc : Bool)
-    (hnew : g.hasEdge u v = false) :
+theorem monotone_should_not (mt : Str → Str → Bool) (g : PGraph Str) (u v : Str) (A B : List Filter) (dir exc : Bool) :
     verdictOf mt g (mkRule false false true dir exc A B) = .fail →
     verdictOf mt (addImportEdge g u v) (mkRule false false true dir exc A B) = .fail :=
-  Pta.monotone_should_not_lemma mt g u v A B dir exc hnew
+  Pta.ScanMono.should_not_add_one mt g u v A B dir exc
 
 /-! non-vacuity: a concrete graph on which the premises are met non-trivially -/
 def exG : PGraph Str := buildGraph ["p".toList, "p.a".toList, "p.b".toList, "q".toList] [absImport "p.a".toList "q".toList] none
 
 example : verdictOf (fun _ _ => false) exG (mkRule true false false true false [.name "p".toList] [.name "q".toList]) = .pass := by decide
 example : verdictOf (fun _ _ => false) exG (mkRule false false true true false [.name "p".toList] [.name "q".toList]) = .fail := by decide
+/-- (not a hypothesis any more; kept as a fact about the example: the added pair `p.b → q` is new) -/
 example : exG.hasEdge "p.b".toList "q".toList = false := by decide
 
 /-! non-vacuity of `alias_anything_verdict`: a batch the de-duplication shrinks -/
